@@ -283,6 +283,54 @@ func (fi *FuncInfo) Term(v ssa.Value) *Term {
 	return t
 }
 
+// foldIntBin folds +, - and * of two integer constants (a local used as a running offset produces such operations: the
+// builder only folds what the language calls constant expressions) when the result is representable in the type.
+func foldIntBin(v *ssa.BinOp, tx, ty *Term) *Term {
+	if v.Op != token.ADD && v.Op != token.SUB && v.Op != token.MUL {
+		return nil
+	}
+	bt, ok := v.Type().Underlying().(*types.Basic)
+	if !ok || bt.Info()&types.IsInteger == 0 || tx.K != KConst || ty.K != KConst {
+		return nil
+	}
+	a, ok1 := tx.ConstInt()
+	b, ok2 := ty.ConstInt()
+	if !ok1 || !ok2 || a.Kind() != constant.Int || b.Kind() != constant.Int {
+		return nil
+	}
+	r := constant.BinaryOp(a, v.Op, b)
+	if r.Kind() != constant.Int {
+		return nil
+	}
+	// representable in 32 bits of the right signedness at least (int/uint are 32 bits wide on the arm configurations)
+	lo, hi := constant.MakeInt64(-1<<31), constant.MakeInt64(1<<31-1)
+	if bt.Info()&types.IsUnsigned != 0 {
+		lo, hi = constant.MakeInt64(0), constant.MakeInt64(1<<32-1)
+		switch bt.Kind() {
+		case types.Uint8:
+			hi = constant.MakeInt64(255)
+		case types.Uint16:
+			hi = constant.MakeInt64(65535)
+		}
+	} else {
+		switch bt.Kind() {
+		case types.Int8:
+			lo, hi = constant.MakeInt64(-128), constant.MakeInt64(127)
+		case types.Int16:
+			lo, hi = constant.MakeInt64(-32768), constant.MakeInt64(32767)
+		}
+	}
+	if constant.Compare(r, token.LSS, lo) || constant.Compare(r, token.GTR, hi) {
+		return nil
+	}
+	return mk(KConst, r.ExactString(), v.Type(), ssa.NewConst(r, v.Type()))
+}
+
+func isConstZero(t *Term) bool {
+	c, ok := t.IsConst()
+	return ok && c == "0"
+}
+
 func constText(c *ssa.Const) string {
 	if c.Value == nil {
 		return "nil"
@@ -349,7 +397,19 @@ func (fi *FuncInfo) term0(v ssa.Value) *Term {
 	case *ssa.FieldAddr:
 		return mk(KFA, fieldName(v.X.Type(), v.Field), v.Type(), v, fi.Term(v.X))
 	case *ssa.IndexAddr:
-		return mk(KIA, "", v.Type(), v, fi.Term(v.X), fi.Term(v.Index))
+		xt, it := fi.Term(v.X), fi.Term(v.Index)
+		// an element of a reslice is an element of the resliced value: s[lo:hi][i] is s[lo+i] (for accesses in range,
+		// which BOUND proves on the instructions themselves)
+		if xt.K == KSlice && len(xt.A) == 3 && it.Typ != nil {
+			if _, isSl := v.X.Type().Underlying().(*types.Slice); isSl {
+				if lo := xt.A[1]; isConstZero(lo) {
+					return mk(KIA, "", v.Type(), v, xt.A[0], it)
+				} else if _, _, ok := isIntType(lo.Typ); ok || lo.K == KConst {
+					return mk(KIA, "", v.Type(), v, xt.A[0], normalize(mk(KBin, "+", it.Typ, nil, lo, it)))
+				}
+			}
+		}
+		return mk(KIA, "", v.Type(), v, xt, it)
 	case *ssa.Field:
 		return fi.fieldOf(fi.Term(v.X), fieldName(v.X.Type(), v.Field), v.Type(), v)
 	case *ssa.Index:
@@ -386,7 +446,11 @@ func (fi *FuncInfo) term0(v ssa.Value) *Term {
 			return mk(KUn, v.Op.String(), v.Type(), v, fi.Term(v.X))
 		}
 	case *ssa.BinOp:
-		return mk(KBin, v.Op.String(), v.Type(), v, fi.Term(v.X), fi.Term(v.Y))
+		tx, ty := fi.Term(v.X), fi.Term(v.Y)
+		if f := foldIntBin(v, tx, ty); f != nil {
+			return f
+		}
+		return mk(KBin, v.Op.String(), v.Type(), v, tx, ty)
 	case *ssa.Convert:
 		return mk(KConv, types.TypeString(v.Type(), nil), v.Type(), v, fi.Term(v.X))
 	case *ssa.ChangeType:
@@ -435,7 +499,35 @@ func (fi *FuncInfo) term0(v ssa.Value) *Term {
 		} else {
 			hi = mk(KConst, "end", nil, nil)
 		}
-		return mk(KSlice, "", v.Type(), v, fi.Term(v.X), lo, hi)
+		xt := fi.Term(v.X)
+		// a reslice of a reslice is a reslice of the original: s[a:b][c:d] is s[a+c:a+d]
+		if _, isSl := v.X.Type().Underlying().(*types.Slice); isSl && xt.K == KSlice && len(xt.A) == 3 && v.Max == nil {
+			ilo, ihi := xt.A[1], xt.A[2]
+			_, _, intLo := isIntType(ilo.Typ)
+			if intLo || ilo.K == KConst {
+				add := func(a, b *Term) *Term {
+					if isConstZero(a) {
+						return b
+					}
+					if isConstZero(b) {
+						return a
+					}
+					if ca, ok := constInt64(a); ok {
+						if cb, ok := constInt64(b); ok {
+							return mk(KConst, itoa(int(ca+cb)), b.Typ, nil)
+						}
+					}
+					return normalize(mk(KBin, "+", types.Typ[types.Int], nil, a, b))
+				}
+				nlo := add(ilo, lo)
+				nhi := ihi
+				if c, ok := hi.IsConst(); !ok || c != "end" {
+					nhi = add(ilo, hi)
+				}
+				return mk(KSlice, "", v.Type(), v, xt.A[0], nlo, nhi)
+			}
+		}
+		return mk(KSlice, "", v.Type(), v, xt, lo, hi)
 	case *ssa.Call:
 		return fi.callTerm(v)
 	}
